@@ -934,6 +934,8 @@ fn free_run(ctx: &Ctx, env: &Env, inst: &Instance, depth: usize) -> (HashSet<u64
 }
 
 fn main() {
+    // a stack overflow / abort in the code under test must become a verdict, not a dead check
+    vcore::supervise("C15");
     let ctx = Ctx::from_args("C15", "model_checking");
     let env = Env::new();
     let cfgs = configs();
